@@ -148,6 +148,15 @@ CO_ERR COSdoResponse(CO_SDO *srv)
             result = COSdoDownloadBlock(srv);
         }
         return (result);
+    } else if (srv->Blk.State == BLK_UPINIT) {
+        if (cmd == 0xA3) {
+            result = COSdoUploadBlock(srv);
+        } else {
+            COSdoAbort(srv, CO_SDO_ERR_CMD);
+            COSdoAbortReq(srv);
+            CO_SET_DLC(srv->Frm, 8u);
+        }
+        return (result);
     } else if (srv->Blk.State == BLK_UPLOAD) {
         if (cmd == 0xA1) {
             result = COSdoEndUploadBlock(srv);
@@ -196,8 +205,6 @@ CO_ERR COSdoResponse(CO_SDO *srv)
     } else if ((cmd & 0xE3) == 0xA0) {
         COSdoNewRequest(srv);
         result = COSdoInitUploadBlock(srv);
-    } else if (cmd == 0xA3) {
-        result = COSdoUploadBlock(srv);
 
     /* invalid or unknown command */
     } else {
@@ -787,6 +794,7 @@ CO_ERR COSdoInitUploadBlock(CO_SDO *srv)
     srv->Blk.LastValid = 0xFF;
     srv->Blk.Len       = srv->Blk.Size;
     srv->Blk.SegOk     = 0;
+    srv->Blk.State     = BLK_UPINIT;
 
     if (size <= 4) {
         /* small entry: rewind only (basic types have no cursor) */
